@@ -33,6 +33,9 @@ SPECIAL = {"refstr": REFS, "idstr": IDS, "regex": REGEXES, "fmtname": FORMATS, "
 STR_REPLACEMENT = {"$ref": "refstr", "id": "idstr", "$id": "idstr", "pattern": "regex", "format": "fmtname", "$schema": "idstr"}
 ALLOWED = ("RefResolutionError", "UnknownType")
 INSTANCE = Union[None, bool, int, str, List[int], Dict[str, int]]
+# a float keyword value never meets a symbolic integer in E1 (CrossHair's int-vs-float arithmetic crashed z3 / enumerates integers);
+# the numeric kernels with float operands are decided by the E2 queries
+INSTANCE_NO_INT = Union[None, bool, str, List[str], Dict[str, bool]]
 
 
 def kinds_for(d, k):
@@ -157,7 +160,7 @@ def single(d, k, kind, position="root", eps="core", exclude=(), small_cat=False)
     def body(v, x):
         return True, run_entry_points(d, schema_of(v), x, ep_list)
 
-    return Spec([("v", vtype(kind)), ("x", INSTANCE)], pre, body, tags=[])
+    return Spec([("v", vtype(kind)), ("x", INSTANCE_NO_INT if kind == "float" else INSTANCE)], pre, body, tags=[])
 
 
 PAIRS = [
@@ -195,7 +198,7 @@ def pairf(d, k1, kind1, k2, kind2, small_cat=False):
         schema = {k1: vof(d, kind1, v1), k2: vof(d, kind2, v2)}
         return True, run_entry_points(d, schema, x, EPS_CORE)
 
-    return Spec([("v1", vtype(kind1)), ("v2", vtype(kind2)), ("x", INSTANCE)], pre, body, tags=[])
+    return Spec([("v1", vtype(kind1)), ("v2", vtype(kind2)), ("x", INSTANCE_NO_INT if "float" in (kind1, kind2) else INSTANCE)], pre, body, tags=[])
 
 
 KEY_REGEXES = REGEXES + ["(?i)b", "(?s).", "(?i)^A$"]      # "(?m)^a" crashes CrossHair's regex model (IndexError on the empty subject): not used
